@@ -1,0 +1,29 @@
+//go:build verif
+
+package builtin
+
+import (
+	"encoding/json"
+	"ti/base"
+)
+
+// VerifParseTypeString exposes parseTypeString.
+func VerifParseTypeString(s string) base.T { return parseTypeString(s) }
+
+// VerifParseArguments decodes a JSON array of arguments exactly as a .ti-config file is decoded and parses it.
+func VerifParseArguments(jsonArgs []byte) ([]base.T, error) {
+	var args []MethodArgument
+	if err := json.Unmarshal(jsonArgs, &args); err != nil {
+		return nil, err
+	}
+	return parseArguments(args), nil
+}
+
+// VerifParseReturnType decodes a JSON return_type object and parses it.
+func VerifParseReturnType(jsonRet []byte) (base.T, error) {
+	var ret MethodReturn
+	if err := json.Unmarshal(jsonRet, &ret); err != nil {
+		return base.T{}, err
+	}
+	return parseReturnType(ret), nil
+}
